@@ -28,6 +28,9 @@ Gen/Supervisor.vos Gen/Supervisor.vok Gen/Supervisor.required_vos: Gen/Superviso
 Model/Backlog.vo Model/Backlog.glob Model/Backlog.v.beautified Model/Backlog.required_vo: Model/Backlog.v Base/Bytes.vo
 Model/Backlog.vio: Model/Backlog.v Base/Bytes.vio
 Model/Backlog.vos Model/Backlog.vok Model/Backlog.required_vos: Model/Backlog.v Base/Bytes.vos
+Model/Checkpoint.vo Model/Checkpoint.glob Model/Checkpoint.v.beautified Model/Checkpoint.required_vo: Model/Checkpoint.v Base/Bytes.vo Base/Dec.vo Model/RespCodec.vo
+Model/Checkpoint.vio: Model/Checkpoint.v Base/Bytes.vio Base/Dec.vio Model/RespCodec.vio
+Model/Checkpoint.vos Model/Checkpoint.vok Model/Checkpoint.required_vos: Model/Checkpoint.v Base/Bytes.vos Base/Dec.vos Model/RespCodec.vos
 Model/CmdFilter.vo Model/CmdFilter.glob Model/CmdFilter.v.beautified Model/CmdFilter.required_vo: Model/CmdFilter.v Base/Bytes.vo Model/Filter.vo Gen/CmdTable.vo
 Model/CmdFilter.vio: Model/CmdFilter.v Base/Bytes.vio Model/Filter.vio Gen/CmdTable.vio
 Model/CmdFilter.vos Model/CmdFilter.vok Model/CmdFilter.required_vos: Model/CmdFilter.v Base/Bytes.vos Model/Filter.vos Gen/CmdTable.vos
@@ -55,6 +58,9 @@ Model/Supervisor.vos Model/Supervisor.vok Model/Supervisor.required_vos: Model/S
 Proofs/BacklogProofs.vo Proofs/BacklogProofs.glob Proofs/BacklogProofs.v.beautified Proofs/BacklogProofs.required_vo: Proofs/BacklogProofs.v Base/Bytes.vo Base/Table.vo Model/Backlog.vo
 Proofs/BacklogProofs.vio: Proofs/BacklogProofs.v Base/Bytes.vio Base/Table.vio Model/Backlog.vio
 Proofs/BacklogProofs.vos Proofs/BacklogProofs.vok Proofs/BacklogProofs.required_vos: Proofs/BacklogProofs.v Base/Bytes.vos Base/Table.vos Model/Backlog.vos
+Proofs/CheckpointProofs.vo Proofs/CheckpointProofs.glob Proofs/CheckpointProofs.v.beautified Proofs/CheckpointProofs.required_vo: Proofs/CheckpointProofs.v Base/Bytes.vo Base/Dec.vo Model/RespCodec.vo Model/Checkpoint.vo Proofs/RespProofs.vo
+Proofs/CheckpointProofs.vio: Proofs/CheckpointProofs.v Base/Bytes.vio Base/Dec.vio Model/RespCodec.vio Model/Checkpoint.vio Proofs/RespProofs.vio
+Proofs/CheckpointProofs.vos Proofs/CheckpointProofs.vok Proofs/CheckpointProofs.required_vos: Proofs/CheckpointProofs.v Base/Bytes.vos Base/Dec.vos Model/RespCodec.vos Model/Checkpoint.vos Proofs/RespProofs.vos
 Proofs/CmdFilterProofs.vo Proofs/CmdFilterProofs.glob Proofs/CmdFilterProofs.v.beautified Proofs/CmdFilterProofs.required_vo: Proofs/CmdFilterProofs.v Base/Bytes.vo Model/Filter.vo Model/CmdFilter.vo Gen/CmdTable.vo
 Proofs/CmdFilterProofs.vio: Proofs/CmdFilterProofs.v Base/Bytes.vio Model/Filter.vio Model/CmdFilter.vio Gen/CmdTable.vio
 Proofs/CmdFilterProofs.vos Proofs/CmdFilterProofs.vok Proofs/CmdFilterProofs.required_vos: Proofs/CmdFilterProofs.v Base/Bytes.vos Model/Filter.vos Model/CmdFilter.vos Gen/CmdTable.vos
@@ -94,6 +100,9 @@ Props/C11.vos Props/C11.vok Props/C11.required_vos: Props/C11.v Base/Bytes.vos B
 Props/C13.vo Props/C13.glob Props/C13.v.beautified Props/C13.required_vo: Props/C13.v Base/Bytes.vo Model/Filter.vo Model/CmdFilter.vo Gen/CmdTable.vo Proofs/CmdFilterProofs.vo
 Props/C13.vio: Props/C13.v Base/Bytes.vio Model/Filter.vio Model/CmdFilter.vio Gen/CmdTable.vio Proofs/CmdFilterProofs.vio
 Props/C13.vos Props/C13.vok Props/C13.required_vos: Props/C13.v Base/Bytes.vos Model/Filter.vos Model/CmdFilter.vos Gen/CmdTable.vos Proofs/CmdFilterProofs.vos
+Props/C14.vo Props/C14.glob Props/C14.v.beautified Props/C14.required_vo: Props/C14.v Base/Bytes.vo Base/Dec.vo Model/RespCodec.vo Model/Checkpoint.vo Proofs/CheckpointProofs.vo
+Props/C14.vio: Props/C14.v Base/Bytes.vio Base/Dec.vio Model/RespCodec.vio Model/Checkpoint.vio Proofs/CheckpointProofs.vio
+Props/C14.vos Props/C14.vok Props/C14.required_vos: Props/C14.v Base/Bytes.vos Base/Dec.vos Model/RespCodec.vos Model/Checkpoint.vos Proofs/CheckpointProofs.vos
 Props/C15.vo Props/C15.glob Props/C15.v.beautified Props/C15.required_vo: Props/C15.v Base/Bytes.vo Base/Dec.vo Spec/Crc16.vo Spec/Slot.vo Gen/Crc16.vo Model/Slot.vo Proofs/SlotProofs.vo
 Props/C15.vio: Props/C15.v Base/Bytes.vio Base/Dec.vio Spec/Crc16.vio Spec/Slot.vio Gen/Crc16.vio Model/Slot.vio Proofs/SlotProofs.vio
 Props/C15.vos Props/C15.vok Props/C15.required_vos: Props/C15.v Base/Bytes.vos Base/Dec.vos Spec/Crc16.vos Spec/Slot.vos Gen/Crc16.vos Model/Slot.vos Proofs/SlotProofs.vos
